@@ -17,7 +17,8 @@ TECHNIQUE = 'runtime contract on density2d (independent bin map + smoothed-densi
 RULE = ('event sets {gaussian blobs, mixtures, uniform, tied small-integer lattices} with/without out-of-grid events, '
         '2..N events x bins {count, explicit uneven edges, [int,array] mixtures, sample-derived linear/log/logicle} x '
         'f in {0,1,k/n,random} x sigma; non-trivial = >=20 in-grid events, 0<f<1 and >=2 occupied bins; '
-        'distinct = digest(events, bins, f, sigma)')
+        'distinct = digest(events, bins, f, sigma)'
+        ' Also: per-axis sigma pairs incl. zeros, NaN/inf events and events on the outermost edges with explicit grids.')
 ASSUMPTIONS = ['target count accepted as ceil of either the exact rational f*n or the float product',
                'smoothed density recomputed with scipy.ndimage.gaussian_filter as documented (sigma, constant mode, truncate 6)',
                'grids with a single bin along an axis are exercised through the short form only (contour tracer needs 2x2)']
